@@ -519,6 +519,31 @@ func RunMapInit(conf core.Config, patterns ...string) *core.Result {
 				recv := info.Defs[fd.Recv.List[0].Names[0]]
 				name := core.FuncName(pkg, fd)
 				par := cfgx.Parents(fd.Body)
+				// locals assigned once (`fm := g.from[fid]`) stand for their definition
+				defs := map[types.Object]ast.Expr{}
+				ndef := map[types.Object]int{}
+				ast.Inspect(fd.Body, func(n ast.Node) bool {
+					if a, ok := n.(*ast.AssignStmt); ok && len(a.Lhs) == len(a.Rhs) {
+						for i, l := range a.Lhs {
+							if id, ok := l.(*ast.Ident); ok {
+								if o := core.ObjOf(info, id); o != nil {
+									ndef[o]++
+									defs[o] = a.Rhs[i]
+								}
+							}
+						}
+					}
+					return true
+				})
+				text := func(e ast.Expr) string {
+					e = ast.Unparen(e)
+					if id, ok := e.(*ast.Ident); ok {
+						if o := core.ObjOf(info, id); o != nil && ndef[o] == 1 {
+							return types.ExprString(ast.Unparen(defs[o]))
+						}
+					}
+					return types.ExprString(e)
+				}
 				ast.Inspect(fd.Body, func(n ast.Node) bool {
 					as, ok := n.(*ast.AssignStmt)
 					if !ok || as.Tok != token.ASSIGN || len(as.Lhs) != 1 || len(as.Rhs) != 1 {
@@ -566,7 +591,7 @@ func RunMapInit(conf core.Config, patterns ...string) *core.Result {
 						case *ast.IfStmt:
 							inThen := child == ast.Node(x.Body)
 							if be, ok := ast.Unparen(x.Cond).(*ast.BinaryExpr); ok && be.Op == token.EQL && inThen {
-								if types.ExprString(ast.Unparen(be.X)) == elem && types.ExprString(be.Y) == "nil" {
+								if text(be.X) == elem && types.ExprString(be.Y) == "nil" {
 									okGuard = true
 								}
 							}
@@ -582,7 +607,7 @@ func RunMapInit(conf core.Config, patterns ...string) *core.Result {
 							}
 						case *ast.CaseClause:
 							for _, e := range x.List {
-								if be, ok := ast.Unparen(e).(*ast.BinaryExpr); ok && be.Op == token.EQL && types.ExprString(ast.Unparen(be.X)) == elem && types.ExprString(be.Y) == "nil" {
+								if be, ok := ast.Unparen(e).(*ast.BinaryExpr); ok && be.Op == token.EQL && text(be.X) == elem && types.ExprString(be.Y) == "nil" {
 									okGuard = true
 								}
 							}
